@@ -154,7 +154,9 @@ def run_ren(probe, model, reqs, chunks=16, timeout=900):
     def one(part):
         rc, out, err = vlib.run_lines(probe, part, timeout=timeout)
         if rc != 0 or len(out) != len(part):
-            return (None, None, None, 'probe_ren: rc=%d, %d answers for %d requests: %s' % (rc, len(out), len(part), err[-1500:]), part)
+            # the probe answers in order: the request after the last answer is the one it died on
+            culprit = [part[len(out)]] if len(out) < len(part) else part
+            return (None, None, None, 'probe_ren: rc=%d after %d of %d requests: %s' % (rc, len(out), len(part), err[-1500:]), culprit)
         obs, mreq = [], []
         for r, o in zip(part, out):
             head, sep, ob = o.partition(' |')
